@@ -987,6 +987,9 @@ func (t *trzszTransfer) sendFiles(sourceFiles []*sourceFile, progress progressCa
 		if err := t.sendFileMD5(digest, progress); err != nil {
 			return nil, err
 		}
+
+		// close now instead of holding every sent file open until the whole transfer ends
+		file.Close()
 	}
 
 	return remoteNames, nil
